@@ -86,6 +86,7 @@ type Event struct {
 type Config struct {
 	Sched    bool // schedule choices (otherwise: always keep running / lowest id)
 	MapOrder bool // map iteration order choices (otherwise: sorted order)
+	Quiet    bool // registered quiet mutexes are not scheduling points (see SetQuiet)
 }
 
 type Result struct {
